@@ -111,7 +111,7 @@ def _time_of_module(rng, simt):
     numeric = not isinstance(simt['start'], str)
     if r < 0.70 or unit == 'unitless':
         # same unit: dt ratio and offsets
-        ratio = rng.choice([1, 1, 0.5, 2, 3, 0.25, 1.5])
+        ratio = rng.choice([1, 1, 0.5, 2, 3, 0.25, 1.5, 0.7, 0.3, 1 / 3, 2.3, 1 / 7])
         dt = simt['dt'] * ratio
         if unit in ('day', 'week', 'month') and not numeric:
             dt = max(1, int(round(dt))) if rng.random() < 0.8 else dt
@@ -125,7 +125,10 @@ def _time_of_module(rng, simt):
                 out['start'] = simt['start'] - simt['dt']
             elif q < 0.47:
                 out['start'] = simt['start'] + rng.choice([2e-6, 5e-6, 1e-5])     # the excluded point of Separated
-            if rng.random() < 0.3:
+            elif q < 0.52:
+                out['start'] = simt['start'] + simt['dur'] + rng.choice([0, 1, 2.5]) * simt['dt']   # at / after the sim's last point
+                out['stop'] = out['start'] + rng.choice([1, 2, 3.5]) * simt['dt']
+            if 'stop' not in out and rng.random() < 0.3:
                 out['stop'] = simt['start'] + simt['dur'] - rng.choice([0, 1, 2, 0.5]) * simt['dt']
                 if rng.random() < 0.15:
                     out['stop'] = simt['start'] + simt['dur'] + simt['dt']
@@ -135,7 +138,7 @@ def _time_of_module(rng, simt):
             if rng.random() < 0.4:
                 out['start'] = _date_add(simt['start'], rng.choice([1, 3, 7, 14, 31]))
             if rng.random() < 0.25:
-                out['stop'] = _date_add(simt['start'], rng.choice([20, 40, 59]))
+                out['stop'] = _date_add(simt['start'], rng.choice([20, 40, 59, 400]))
     else:
         others = [u for u in ('year', 'month', 'week', 'day') if u != unit]
         out['unit'] = rng.choice(others)
@@ -146,6 +149,10 @@ def _time_of_module(rng, simt):
             npts = simt['dur'] * days[unit] / (out['dt'] * days[out['unit']])
             if npts > 100:
                 out['dt'] = out['dt'] * math.ceil(npts / 100)
+        if not numeric and rng.random() < 0.4:
+            out['start'] = _date_add(simt['start'], rng.choice([2, 7, 14, 31, 45]))
+        if not numeric and rng.random() < 0.2:
+            out['stop'] = _date_add(simt['start'], rng.choice([50, 90, 200]))
     return out
 
 
@@ -194,7 +201,52 @@ def gen_case(rng, force_real=None):
         add('SIS'); add('RandomNet')
         if rng.random() < 0.5: add('Deaths')
     rng.shuffle(mods)
+    if len(mods) >= 2 and rng.random() < 0.04:
+        # two modules of different containers under one name (the same container refuses duplicates)
+        a, b = mods[0], mods[1]
+        if KIND_OF_CLASS[a['cls']] != KIND_OF_CLASS[b['cls']] and not has_real(dict(mods=[a, b])):
+            b['name'] = a['name']
     return dict(sim=simt, mods=mods, n_agents=rng.choice([20, 40]), rand_seed=rng.randint(0, 999))
+
+
+def scenarios():
+    """ Fixed configuration families exercised on EVERY run (next to the random ones) """
+    Y = dict(unit='year', dt=1.0, start=2000, dur=3.0)
+    D = dict(unit='day', dt=2, start='2000-01-01', dur=40)
+    W = dict(unit='week', dt=1, start='2020-02-15', dur=8)
+    M = dict(unit='month', dt=1, start='2000-01-01', dur=5)
+    YD = dict(unit='year', dt=0.25, start='2001-03-01', dur=1.5)
+    U = dict(unit='unitless', dt=1.0, start=5.0, dur=6.0)
+    def m(cls, name, **t): return dict(cls=cls, name=name, time=t)
+    out = [
+        # time points beyond the sim's last point, starting at / after it, before its first point
+        dict(sim=Y, mods=[m('PInt', 'late', unit='year', dt=1.0, stop=2005.0), m('PAna', 'after', unit='year', dt=0.5, start=2004.0, stop=2006.0),
+                          m('PDem', 'early', unit='year', dt=1.0, start=1998.0), m('PDis', 'atend', unit='year', dt=1.0, start=2003.0, stop=2005.0)]),
+        # incommensurate timesteps
+        dict(sim=dict(unit='year', dt=0.3, start=2000, dur=2.1), mods=[m('PDis', 'd7', unit='year', dt=0.7), m('PInt', 'i7', unit='year', dt=1 / 7),
+                                                                       m('PNet', 'n11', unit='year', dt=0.11), m('PCon', 'c', unit='year', dt=0.45, start=2000.2)]),
+        dict(sim=dict(unit='year', dt=1 / 12, start=2000, dur=1.0), mods=[m('PDis', 'wk', unit='week', dt=1), m('PInt', 'dy', unit='day', dt=10), m('PAna', 'mo', unit='month', dt=1)]),
+        # date-based day / week / month sims with modules of other units AND own start / stop
+        dict(sim=D, mods=[m('PInt', 'wk', unit='week', dt=1, start='2000-01-15'), m('PAna', 'mo', unit='month', dt=1, start='2000-01-10', stop='2000-03-20'),
+                          m('PDis', 'dd', unit='day', dt=3, start='2000-01-05', stop='2000-02-01'), m('PDem', 'yr', unit='year', dt=0.05)]),
+        dict(sim=W, mods=[m('PInt', 'dy', unit='day', dt=3, start='2020-03-01'), m('PAna', 'w2', unit='week', dt=2, start='2020-02-29'), m('PNet', 'mo', unit='month', dt=1, start='2020-03-15')]),
+        dict(sim=M, mods=[m('PInt', 'wk', unit='week', dt=2, start='2000-02-01'), m('PDis', 'dy', unit='day', dt=10, start='2000-01-20', stop='2000-04-15'), m('PCon', 'm2', unit='month', dt=2, start='2000-03-01')]),
+        dict(sim=YD, mods=[m('PInt', 'dy', unit='day', dt=30, start='2001-06-01'), m('PAna', 'mo', unit='month', dt=1, start='2001-04-15', stop='2002-03-01'), m('PDis', 'yr', unit='year', dt=0.1)]),
+        # two instances of one class; a product on its own timeline
+        dict(sim=Y, mods=[m('PInt', 'a', unit='year', dt=0.5), m('PInt', 'b', unit='year', dt=1.0, start=2001.0), m('PDis', 'x', unit='year', dt=0.25), m('PDis', 'y'),
+                          dict(cls='PIntP', name='ip', time={}, product=dict(cls='PProd', name='prod', time=dict(unit='year', dt=0.5)))]),
+        # unitless
+        dict(sim=U, mods=[m('PDis', 'h', dt=0.5, unit='unitless'), m('PInt', 'o', dt=2.0, unit='unitless', start=6.5), m('PAna', 'z', dt=1.0, unit='unitless', stop=13.0)]),
+        # one name in two containers; a module named like the `people` entry (known finding C08-name-collision)
+        dict(sim=Y, mods=[m('PInt', 'x', unit='year', dt=0.5), m('PAna', 'x', unit='year', dt=1.0)]),
+        dict(sim=Y, mods=[m('PDis', 'a', unit='year', dt=0.25), m('PInt', 'a'), m('PInt', 'b', unit='year', dt=0.5)]),
+        dict(sim=Y, mods=[m('PInt', 'people', unit='year', dt=0.5)]),
+        # month-unit sim with a daily module (known finding C08-month-sim-mean-month-length)
+        dict(sim=dict(unit='month', dt=1, start='2020-02-15', dur=3), mods=[m('PInt', 'daily', unit='day', dt=1, start='2020-02-22')]),
+    ]
+    for i, c in enumerate(out):
+        c.setdefault('n_agents', 20); c.setdefault('rand_seed', i)
+    return out
 
 
 def has_real(case):
@@ -264,7 +316,27 @@ def describe(sim):
             k, err = to_eps(t, eps)
             worst = max(worst, err); ks.append(k)
         tvecs.append(ks)
-    return dict(mods=mods, kinds=kinds, is_disease=[isinstance(m, ss.Disease) for m in mods], tvecs=tvecs, worst=worst, eps=eps)
+    tvecs.append(list(tvecs[0]))            # the `people` entry of abs_tvecs: the sim's time vector (owner len(mods)+1)
+    # names: 0 = "sim", 1 = "people", others by first appearance
+    ids = {'sim': 0, 'people': 1}
+    name_ids = []
+    for m in mods:
+        if m.name not in ids: ids[m.name] = len(ids)
+        name_ids.append(ids[m.name])
+    collide = len(set(name_ids)) != len(name_ids) or any(n < 2 for n in name_ids)
+    return dict(mods=mods, kinds=kinds, is_disease=[isinstance(m, ss.Disease) for m in mods], tvecs=tvecs, worst=worst, eps=eps,
+                name_ids=name_ids, collide=collide)
+
+
+def sched_owner_index(sim, mods, key):
+    """ Which owner's OWN time vector object is stored under abs_tvecs[key] (identity, not equality) """
+    arr = sim.loop.abs_tvecs[key]
+    for i, m in enumerate(mods):
+        if arr is m.t.abstvec:
+            return i + 1
+    if arr is sim.t.abstvec:
+        return len(mods) + 1 if key == 'people' else 0
+    return None
 
 
 def owner_index(sim, mods, obj):
@@ -292,17 +364,49 @@ def run_recorded(sim, desc):
             ti = clock_owner.t.ti
             vec = clock_owner.t.abstvec
             sched = float(vec[ti]) if 0 <= ti < len(vec) else None
+            cal[0].append(calendar_of(sim, clock_owner, ti))
             rec.append((float(t), int(o), oi, int(ti), sched, nm, 'people' if owner is sim.people else None))
             return f()
         return w
+    cal = [[]]
     plan['func'] = [wrap(f, t, o, nm) for f, t, o, nm in zip(funcs, times, orders, names)]
     sim.run()
     final = [int(o.t.ti) for o in [sim] + mods]
+    desc['calendar'] = cal[0]
     return rec, final
 
 
+def calendar_of(sim, owner, ti):
+    """ The instant the owner's OWN clock denotes, on a scale shared by all owners of the sim (None if there is none):
+        date ordinal for date-based sims, calendar year for numeric year sims """
+    t = owner.t
+    if not (0 <= ti < t.npts):
+        return None
+    try:
+        if not sim.t.is_numeric:
+            d = t.datevec[ti]
+            return ('date', d.toordinal()) if hasattr(d, 'toordinal') else None
+        if sim.t.unit == 'year' and t.unit == 'year':
+            return ('year', float(t.yearvec[ti]))
+    except Exception:
+        return None
+    return None
+
+
+def rerun_after_completion(sim, mods):
+    """ Redundant run() / run_one_step() on the completed sim: clocks must keep reading their final index """
+    out = []
+    for name, call in (('run', lambda: sim.run()), ('run_one_step', lambda: sim.run_one_step()), ('run(until)', lambda: sim.run(until=sim.t.timevec[0]))):
+        try:
+            call()
+        except Exception:
+            pass
+        out.append((name, [int(o.t.ti) for o in [sim] + mods]))
+    return out
+
+
 def model_line(desc):
-    ms = ','.join(f"{k}:{int(d)}" for k, d in zip(desc['kinds'], desc['is_disease'])) or '-'
+    ms = ','.join(f"{k}:{int(d)}:{n}" for k, d, n in zip(desc['kinds'], desc['is_disease'], desc['name_ids'])) or '-'
     ts = ';'.join(','.join(str(k) for k in tv) if tv else '-' for tv in desc['tvecs'])
     return f'plan {ms} {ts}'
 
@@ -345,11 +449,11 @@ def correspond(ctx):
         from fractions import Fraction
         if Fraction(facts['time_eps']) != Fraction(repr(ss.options.time_eps)):
             ctx.broke('extract', 'PhaseOrder', f"time_eps extracted {facts['time_eps']} but ss.options.time_eps = {ss.options.time_eps!r}")
-    rows = facts.get('rows') or []
+    rows = (ctx.extracted.get('LoopFacts', {}).get('facts') or {}).get('rows') or []
     ncases = ctx.budget(90, 600)
     cases = [gen_case(ctx.rng) for _ in range(ncases)]
     corpus = load_corpus()
-    cases = corpus + cases
+    cases = corpus + scenarios() + cases
     prepared = []
     lines = []
     for case in cases:
@@ -364,14 +468,12 @@ def correspond(ctx):
         if desc['worst'] > 1e-3:
             ctx.broke('correspondence', 'C08.eps', f"an abstvec entry is not a multiple of time_eps (off by {desc['worst']:.3g} eps)", data=case)
             continue
-        if not np.array_equal(sim.loop.abs_tvecs['people'], sim.t.abstvec):
-            ctx.broke('correspondence', 'C08.people', "abs_tvecs['people'] is not the sim's abstvec", data=case)
-            continue
         try:
             with warnings.catch_warnings():
                 warnings.simplefilter('ignore')
                 nplan = len(sim.loop.plan)
-                funcs = [(owner_index(sim, desc['mods'], r['func'].__self__), r['func_name'], r['func'].__self__ is sim.people) for r in sim.loop.funcs]
+                funcs = [(owner_index(sim, desc['mods'], r['func'].__self__), r['func_name'], r['func'].__self__ is sim.people,
+                          sched_owner_index(sim, desc['mods'], r['module'])) for r in sim.loop.funcs]
                 rec, final = run_recorded(sim, desc)
         except Exception as e:
             if has_real(case):      # an exception inside a real module's own step is not a scheduling matter
@@ -403,9 +505,11 @@ def compare(desc, funcs, rec, final, ml, rows):
     # function list: owner and method (via the table row)
     if len(m['funcs']) != len(funcs):
         return f"number of collected functions: impl={len(funcs)} model={len(m['funcs'])}"
-    for i, ((mo, mfin, mrow), (io, iname, ipeople)) in enumerate(zip(m['funcs'], funcs)):
+    for i, ((msched, mo, mfin, mrow), (io, iname, ipeople, isched)) in enumerate(zip(m['funcs'], funcs)):
         if mo != io:
-            return f'function {i}: owner impl={io} model={mo}'
+            return f'function {i}: clock owner impl={io} model={mo}'
+        if msched != isched:
+            return f'function {i} ({iname} of owner {io}): scheduled on the time vector of owner impl={isched} model={msched}'
         if rows:
             cont, meth, _ = rows[mrow]
             if meth != iname:
@@ -423,14 +527,14 @@ def compare(desc, funcs, rec, final, ml, rows):
         return f"plan length: impl={len(impl)} model={len(m['plan'])}"
     if m['sep'] == '1':
         for i, (a, b) in enumerate(zip(impl, m['plan'])):
-            mt, mo, mow, mk, mclk = b
+            mt, mo, msch, mow, mk, mclk = b
             if a[:3] != (mt, mo, mow):
-                return f'entry {i}: impl (time,order,owner)={a[:3]} model={(mt, mo, mow)}'
+                return f'entry {i}: impl (time,order,clock owner)={a[:3]} model={(mt, mo, mow)}'
             if a[3] != mclk:
                 return f'entry {i} (time {mt} eps, func_order {mo}, owner {mow}): owner clock at invocation impl ti={a[3]} model ti={mclk}'
     else:
         # keys tie or owners interleave: compare as multisets, and the executed order must be sorted by the exact key
-        if sorted(x[:3] for x in impl) != sorted(x[:3] for x in m['plan']):
+        if sorted(x[:3] for x in impl) != sorted((x[0], x[1], x[3]) for x in m['plan']):
             return 'executed entries are not the model\'s cross product (as multisets)'
         keys = [x[0] + x[1] for x in impl]
         if any(b < a for a, b in zip(keys, keys[1:])):
@@ -442,6 +546,13 @@ def compare(desc, funcs, rec, final, ml, rows):
 
 # ---------------------------------------------------------------------------
 # oracle on the real code
+
+# which symptoms each recorded defect of the unchanged tree can produce; any other symptom in such a configuration is a VIOLATION
+CONSEQUENCES = {
+    'timepoints-closer-than-eps-x-nfuncs': ('time-order', 'phase-order', 'clock', 'calendar-order', 'calendar-order-month'),
+    'module-names-collide': ('multiplicity', 'clock', 'final-clock', 'calendar-order', 'calendar-order-month', 'time-order', 'run-raised'),
+}
+
 
 def oracle_case(case):
     """ Run the real code only; return list of failures (signature, what) """
@@ -455,8 +566,9 @@ def oracle_case(case):
     kinds = ['sim'] + desc['kinds']
     nfuncs = len(sim.loop.funcs)
     near = not separated(desc, nfuncs)
-    cause = 'timepoints-closer-than-eps-x-nfuncs' if near else 'none'
-    # reference cross product: every per-step method of every owner, once per own time point
+    # attribution to the two recorded defects of the unchanged tree (by configuration class, not by symptom)
+    cause = 'module-names-collide' if desc['collide'] else ('timepoints-closer-than-eps-x-nfuncs' if near else 'none')
+    # reference cross product: every per-step method of every owner, once per point of ITS OWN time vector
     import starsim as ss
     expected = {}
     def methods_of(i, o, kind):
@@ -476,34 +588,50 @@ def oracle_case(case):
         with warnings.catch_warnings():
             warnings.simplefilter('ignore')
             rec, final = run_recorded(sim, desc)
+            reruns = rerun_after_completion(sim, mods)
     except Exception as e:
         if has_real(case):
             return None
-        return [dict(signature=dict(oracle='schedule', what='run-raised', cause=cause, exc=type(e).__name__),
-                     what=f'run of an accepted configuration raised {type(e).__name__}: {e}')]
+        c = cause if 'run-raised' in CONSEQUENCES.get(cause, ()) else 'none'
+        sig = dict(oracle='schedule', cause=c)
+        if c == 'none': sig.update(what='run-raised', exc=type(e).__name__)
+        return [dict(signature=sig, what=f'run of an accepted configuration raised {type(e).__name__}: {e}')]
     eps = desc['eps']
-    prev_t = None; prev_phase = None
+    prev_t = None; prev_phase = None; prev_cal = None; prev_lab = None
     for idx, (t, o, oi, ti, sched, nm, ppl) in enumerate(rec):
         tk, _ = to_eps(t, eps)
         key = (oi, ppl == 'people', nm, tk)
+        lab = label(oi, nm, ppl, mods)
         if key not in expected:
-            fails.append(('multiplicity', f'call #{idx} {label(oi, nm, ppl, mods)} at t={t} is not a (method, own time point) of the reference schedule'))
+            fails.append(('multiplicity', f'call #{idx} {lab} at t={t} is not a (method, own time point) of the reference schedule'))
         else:
             expected[key] += 1
         kind = 'people' if ppl == 'people' else kinds[oi]
         ph = phase_of(kind, nm)
         if ph is None:
-            fails.append(('phase-order', f'call #{idx} {label(oi, nm, ppl, mods)} belongs to no documented phase'))
+            fails.append(('phase-order', f'call #{idx} {lab} belongs to no documented phase'))
             ph = -1
         if prev_t is not None:
             if tk < prev_t:
-                fails.append(('time-order', f'call #{idx} {label(oi, nm, ppl, mods)} scheduled at t={t} runs after a call scheduled at t={prev_t * eps:.6f}'))
+                fails.append(('time-order', f'call #{idx} {lab} scheduled at t={t} runs after a call scheduled at t={prev_t * eps:.6f}'))
             elif tk == prev_t and ph < prev_phase:
-                fails.append(('phase-order', f'at t={t}: {label(oi, nm, ppl, mods)} (phase "{PHASES[ph]}") runs after phase "{PHASES[prev_phase]}"'))
+                fails.append(('phase-order', f'at t={t}: {lab} (phase "{PHASES[ph]}") runs after phase "{PHASES[prev_phase]}"'))
         prev_t, prev_phase = tk, ph
         if sched is None or to_eps(sched, eps)[0] != tk:
-            fails.append(('clock', f'call #{idx} {label(oi, nm, ppl, mods)} scheduled at t={t}: owner clock ti={ti} denotes '
+            fails.append(('clock', f'call #{idx} {lab} scheduled at t={t}: owner clock ti={ti} denotes '
                                    f'{"no time point" if sched is None else sched} instead'))
+        # the executed schedule read on the callers' OWN clocks (dates / calendar years) never goes backwards
+        c = desc['calendar'][idx]
+        if c is not None and prev_cal is not None and c[0] == prev_cal[0]:
+            tol = 0 if c[0] == 'date' else 2.5e-6
+            if c[1] < prev_cal[1] - tol:
+                shown = (lambda v: __import__('datetime').date.fromordinal(v).isoformat()) if c[0] == 'date' else (lambda v: f'{v:.6f}')
+                kind_ = 'calendar-order'
+                if c[0] == 'date' and sim.t.unit == 'month' and prev_cal[1] - c[1] <= 4 and any(m_.t.unit != 'month' for m_ in mods):
+                    kind_ = 'calendar-order-month'      # recorded defect: calendar months (dates) vs mean-length months (abstvec)
+                fails.append((kind_, f'call #{idx} {lab}, whose own clock reads {shown(c[1])}, runs after {prev_lab}, whose own clock read {shown(prev_cal[1])}'))
+        if c is not None:
+            prev_cal, prev_lab = c, lab
     bad = [k for k, n in expected.items() if n != 1]
     if bad:
         k = bad[0]
@@ -511,15 +639,25 @@ def oracle_case(case):
     for i, o in enumerate(owners):
         if final[i] != len(desc['tvecs'][i]) - 1:
             fails.append(('final-clock', f'after the run {label(i, "ti", None, mods)} = {final[i]} but the final index is {len(desc["tvecs"][i]) - 1}'))
+    for name, clocks in reruns:
+        if clocks != final:
+            fails.append(('final-clock-after-rerun', f'a redundant sim.{name}() on the completed sim moved the clocks from {final} to {clocks}'))
+            break
     out = []
     seen = set()
     for what, msg in fails:
         if what in seen: continue
         seen.add(what)
-        sig = dict(oracle='schedule', cause=cause)
-        if cause == 'none':
+        c = cause if what in CONSEQUENCES.get(cause, ()) else 'none'
+        if what == 'calendar-order-month' and c == 'none':
+            c = 'month-sim-mean-month-length'
+        sig = dict(oracle='schedule', cause=c)
+        if c == 'none':
             sig['what'] = what
-        out.append(dict(signature=sig, what=f'[{what}] {msg}' + (' (two owners have time points closer than time_eps x number of functions)' if near else '')))
+        note = {'timepoints-closer-than-eps-x-nfuncs': ' (two owners have time points closer than time_eps x number of functions)',
+                'module-names-collide': ' (two modules share a name, or a module is named "people")', 'none': '',
+                'month-sim-mean-month-length': ' (month-unit sim: its own steps follow calendar months, modules of other units are placed with 30.4375-day months)'}[c]
+        out.append(dict(signature=sig, what=f'[{what}] {msg}{note}'))
     return out
 
 
@@ -545,7 +683,7 @@ def load_corpus():
 
 def search(ctx):
     # the stored witness of the known finding, then generated cases
-    cases = [WITNESS] + load_corpus()
+    cases = [WITNESS] + load_corpus() + scenarios()
     # cases a broken correspondence pointed at
     for b in ctx.broken:
         d = b.get('data') or {}
